@@ -1,8 +1,8 @@
 # property id -> how ./check builds and runs it. One entry per claimed property.
 # part: pkg (relative to /verif/h), run (test regexp), shards per tier, budget_s per tier,
 #       overlay: [{file: <path under /repo>, rewrite: [import literals replaced by shims]}]
-def P(name, pkg, run, shards=None, budget=None, overlay=None, gomaxprocs=None):
-    return {"name": name, "pkg": pkg, "run": run,
+def P(name, pkg, run, shards=None, budget=None, overlay=None, gomaxprocs=None, race=False):
+    return {"name": name, "pkg": pkg, "run": run, "race": race,
             "shards": shards or {"quick": 1, "thorough": 1},
             "budget_s": budget or {"quick": 240, "thorough": 1500},
             "overlay": overlay or [], "gomaxprocs": gomaxprocs}
@@ -62,3 +62,12 @@ CHECKS = {
     "C15": {"parts": [P("routing", "./c15", "^TestC15Routing$"), P("replication-sets", "./c15", "^TestC15ReplicationSets$"), P("multi-partition-replication-sets", "./c15", "^TestC15MultiReplicationSets$"),
                       P("state-machine", "./lifecycle", "^TestC15StateMachine$", shards={"quick": 16, "thorough": 16}, budget={"quick": 200, "thorough": 1200}, gomaxprocs=1)]},
 }
+
+# Race audit (free-running bodies under the Go race detector, h/racepass): appended to the properties whose
+# other parts rely on "shared memory is only touched under the locks the code takes".
+def R(pid):
+    return P("race-audit", "./racepass", "^TestRace%s$" % pid, race=True)
+
+for _pid in ["C06", "C07", "C08", "C10", "C11", "C13", "C15", "C16", "C17", "C18", "C19"]:
+    CHECKS[_pid]["parts"].append(R(_pid))
+
